@@ -1,0 +1,31 @@
+//go:build verif
+
+// Contracts for the exovc verifier (/verif). Comment-only: with the tag off this file is not part
+// of the package, with the tag on it declares nothing.
+package types
+
+// C15: the fan-out delivers the notification to every subscriber exactly once, in registration
+// (index) order. Ghost events: kind = 1 (end) / 2 (start) + 10 * dynamic type id of the subscriber.
+//@ func (MultiEpochHooks).AfterEpochEnd
+//@   modifies trace, state(ctx)
+//@   ensures[C15.fan.end.count] traceN() == old(traceN()) + len(h)
+//@   ensures[C15.fan.end.order] forall(j, 0, len(h), traceAt(old(traceN()) + j) == mkEv(1 + 10 * ityp(h[j]), epochIdentifier, epochNumber))
+//@   ensures[C15.fan.end.frame] forall(j, 0, old(traceN()), traceAt(j) == old(traceAt(j))) && store(ctx, "epochs") == old(store(ctx, "epochs"))
+//@ loop #1
+//@   invariant -1 <= phi1 && phi1 < len(h)
+//@   invariant traceN() == old(traceN()) + phi1 + 1
+//@   invariant forall(j, 0, phi1 + 1, traceAt(old(traceN()) + j) == mkEv(1 + 10 * ityp(h[j]), epochIdentifier, epochNumber))
+//@   invariant forall(j, 0, old(traceN()), traceAt(j) == old(traceAt(j)))
+//@   invariant store(ctx, "epochs") == old(store(ctx, "epochs"))
+
+//@ func (MultiEpochHooks).BeforeEpochStart
+//@   modifies trace, state(ctx)
+//@   ensures[C15.fan.start.count] traceN() == old(traceN()) + len(h)
+//@   ensures[C15.fan.start.order] forall(j, 0, len(h), traceAt(old(traceN()) + j) == mkEv(2 + 10 * ityp(h[j]), epochIdentifier, epochNumber))
+//@   ensures[C15.fan.start.frame] forall(j, 0, old(traceN()), traceAt(j) == old(traceAt(j))) && store(ctx, "epochs") == old(store(ctx, "epochs"))
+//@ loop #1
+//@   invariant -1 <= phi1 && phi1 < len(h)
+//@   invariant traceN() == old(traceN()) + phi1 + 1
+//@   invariant forall(j, 0, phi1 + 1, traceAt(old(traceN()) + j) == mkEv(2 + 10 * ityp(h[j]), epochIdentifier, epochNumber))
+//@   invariant forall(j, 0, old(traceN()), traceAt(j) == old(traceAt(j)))
+//@   invariant store(ctx, "epochs") == old(store(ctx, "epochs"))
